@@ -23,7 +23,7 @@ VERIF = os.path.dirname(os.path.dirname(os.path.abspath(__file__)))
 BUILD = os.path.join(VERIF, "build")
 CACHE = os.path.join(BUILD, "c20cache")
 CLANG = os.environ.get("VERIF_CLANG", "clang++-14")
-EXTRACTOR_VERSION = "9"
+EXTRACTOR_VERSION = "10"
 
 NAMING = json.load(open(os.path.join(os.path.dirname(os.path.abspath(__file__)), "c20_naming.json")))
 
@@ -269,6 +269,8 @@ def analyse_function(fd, fname, enum_values):
         k = e0.get("kind")
         if k == "IntegerLiteral":
             return {"k": "lit", "v": int(e0["value"])}
+        if k in ("CXXNullPtrLiteralExpr", "GNUNullExpr"):
+            return {"k": "lit", "v": 0}
         if k == "UnaryOperator" and e0.get("opcode") == "-" and strip_transparent(inner(e0)[0]).get("kind") == "IntegerLiteral":
             return {"k": "lit", "v": -int(strip_transparent(inner(e0)[0])["value"])}
         if k == "DeclRefExpr" and (e0.get("referencedDecl") or {}).get("kind") == "EnumConstantDecl":
